@@ -53,7 +53,9 @@ RuleStrChecks(r) ==
         want == [ok |-> TRUE, rule |-> rule]
     IN
     /\ (NormRule(r.self) = rule
-        \/ (Has(r.rule, "ops") /\ AsSets(NormRule(r.self)) = AsSets(rule))   \* order is judged by zbus-reparse below
+        \* after builder calls in any order: what the getters show is judged through the string form below
+        \* (order: zbus-reparse; an index kept twice: str-conformant), not taken for a harness fault
+        \/ (Has(r.rule, "ops") /\ (AsSets(NormRule(r.self)) = AsSets(rule) \/ Report("builder-last-wins", [self |-> r.self, class |-> "builder-calls", dev |-> "none"])))
         \/ Report("harness-self", [self |-> r.self]))
     /\ (ParseRule(r.str) = want
         \/ Report("str-conformant",
